@@ -299,4 +299,296 @@ theorem frames_RI (w : List Nat) (frames : List (Int × List Nat × Bool))
       rw [hfeed]
       exact ih (fun g hg => hf g (by simp [hg])) c s spec h ho
 
+
+/-! ### the slow path of `Read` -/
+
+/-- `RI` only looks at these fields. -/
+theorem RI_fields {w : List Nat} {s t : Stream} {spec : Spec} (h : RI w s spec) (h1 : t.inp = s.inp)
+    (h2 : t.inset = s.inset) (h3 : t.inbuf = s.inbuf) (h4 : t.inbufoff = s.inbufoff) : RI w t spec :=
+  ⟨by rw [h1]; exact h.inv, by rw [h1]; exact h.rel, by rw [h2]; exact h.wf, by rw [h2, h1]; exact h.cov,
+   by rw [h1, h2]; exact h.dat, by rw [h1]; exact h.st0, by rw [h3, h1]; exact h.buf,
+   by rw [h1, h3, h2]; exact h.bufcov, by rw [h3, h4]; exact h.off⟩
+
+/-- everything before the read position (consumed or parked) has been received -/
+def Pre (s : Stream) : Prop := ∀ x, 0 ≤ x → x < s.inp.start + s.inbuf.length → Mem s.inset x
+
+/-- if `[0, p]` is received, the first stored range is `[0, e)` with `p < e` -/
+theorem head_covers (r0 : Rg) (rest : RS) (p : Int) (hwf : WF (r0 :: rest)) (hp : 0 ≤ p)
+    (hall : ∀ x, 0 ≤ x → x ≤ p → Mem (r0 :: rest) x) (hnn : ∀ x, Mem (r0 :: rest) x → 0 ≤ x) :
+    r0.s = 0 ∧ p < r0.e := by
+  obtain ⟨b, hb⟩ := hwf
+  have hne : r0.s < r0.e := hb.2.1
+  have h0 : r0.s ≤ 0 := NetVerif.Proofs.C24.chain_head_le hb (hall 0 (Int.le_refl _) hp)
+  have h1 : 0 ≤ r0.s := hnn r0.s ⟨r0, by simp, Int.le_refl _, hne⟩
+  refine ⟨by omega, ?_⟩
+  apply Int.not_le.1
+  intro hle
+  have hm := hall r0.e (by omega) hle
+  rw [NetVerif.Proofs.C24.mem_cons] at hm
+  rcases hm with hm | hm
+  · omega
+  · have := NetVerif.Proofs.C24.chain_lt_of_mem hb.2.2 hm; omega
+
+
+/-- `Read`, slow path, step 1: drop what the fast path consumed -/
+def prep (s : Stream) : Stream :=
+  if s.inbufoff > 0 then
+    { s with inp := Pipe.discardBefore s.inp (s.inp.start + s.inbufoff), inbufoff := 0, inbuf := [] }
+  else s
+
+/-- `Read`, slow path, the rest (verbatim from the model) -/
+def slowBody (c : Conn) (s : Stream) (n : Nat) : Conn × Stream × ReadRes :=
+  if s.inresetcode ≠ -1 then (c, s, .errReset) else
+  if s.inclosed.isSet then (c, s, .errClosed) else
+  if s.insize = s.inp.start then (c, s, .eof) else
+  match s.inset with
+  | [] => (c, { s with panicked := true }, .panic)
+  | r0 :: _ =>
+    if r0.s ≠ 0 ∨ r0.e ≤ s.inp.start then (c, { s with panicked := true }, .panic) else
+    let size := r0.e - s.inp.start
+    let n' : Int := if size < n then size else n
+    let start := s.inp.start
+    let e := start + n'
+    match Pipe.copy s.inp start n'.toNat with
+    | none => (c, { s with panicked := true }, .panic)
+    | some bytes =>
+      let s := { s with inp := Pipe.discardBefore s.inp e }
+      if e = s.insize then (c.bytesReadOffLoop n', s, .data bytes true) else
+      let (s, extra) :=
+        if r0.s ≤ s.inp.start ∧ r0.e > s.inp.start then
+          match Pipe.peek s.inp (r0.e - s.inp.start) with
+          | some pb => ({ s with inbuf := pb }, (pb.length : Int))
+          | none => ({ s with panicked := true }, 0)
+        else (s, 0)
+      let s :=
+        if s.insize = -1 ∨ s.insize > s.inwin then
+          let newWindow := s.inp.start + s.inbuf.length + s.inmaxbuf
+          if shouldUpdateFlowControl s.inmaxbuf (newWindow - s.inwin) then { s with insendmax := .unsent } else s
+        else s
+      (c.bytesReadOffLoop (n' + extra), s, .data bytes false)
+
+theorem read_eq_slow (c : Conn) (s : Stream) (n : Nat) (hw : s.writeOnly = false)
+    (hnf : ¬ s.inbuf.length > s.inbufoff) :
+    QuicStream.read c s n = if !s.canRead then (c, s, .blocked) else slowBody c (prep s) n := by
+  unfold QuicStream.read
+  have h1 : ¬ (s.writeOnly = true) := by simp [hw]
+  rw [if_neg h1, if_neg hnf]
+  rfl
+
+
+theorem prep_RI (w : List Nat) (s : Stream) (spec : Spec) (h : RI w s spec) (hp : Pre s)
+    (hnf : ¬ s.inbuf.length > s.inbufoff) :
+    ∃ spec1, RI w (prep s) spec1 ∧ (prep s).inbuf = [] ∧ (prep s).inbufoff = 0 ∧ (prep s).inp.start = pos s ∧
+      Pre (prep s) ∧ (prep s).inset = s.inset ∧ (prep s).insize = s.insize ∧ (prep s).inclosed = s.inclosed ∧
+      (prep s).inresetcode = s.inresetcode ∧ (prep s).panicked = s.panicked := by
+  have hoff := h.off
+  have hlen : s.inbuf.length = s.inbufoff := by omega
+  unfold prep
+  by_cases h0 : s.inbufoff > 0
+  · rw [if_pos h0]
+    refine ⟨_, discard_RI w s spec h (s.inp.start + s.inbufoff) (by omega), rfl, rfl, rfl, ?_, rfl, rfl, rfl, rfl, rfl⟩
+    intro x hx hx2
+    have hx2' : x < s.inp.start + s.inbufoff + ((([] : List Nat).length : Nat) : Int) := hx2
+    simp at hx2'
+    exact hp x hx (by omega)
+  · rw [if_neg h0]
+    have hnil : s.inbuf = [] := List.eq_nil_of_length_eq_zero (by omega)
+    exact ⟨spec, h, hnil, by omega, by unfold pos; omega, hp, rfl, rfl, rfl, rfl, rfl⟩
+
+
+/-- what one `Read` guarantees -/
+structure ReadPost (w : List Nat) (p0 : Int) (t : Stream) (res : ReadRes) : Prop where
+  ri : ∃ spec', RI w t spec'
+  pre : Pre t
+  adv : pos t = p0 + (bytesOf res).length
+  bytes : ∀ i : Nat, i < (bytesOf res).length → (bytesOf res)[i]? = wAt w (p0 + i)
+  nopanic : res ≠ .panic
+  opn : isOpen t
+
+theorem slowBody_post (w : List Nat) (c : Conn) (s : Stream) (spec : Spec) (n : Nat) (h : RI w s spec)
+    (hb : s.inbuf = []) (hbo : s.inbufoff = 0) (hp : Pre s) (ho : isOpen s)
+    (hcr : Rangeset.contains s.inset s.inp.start = true ∨ s.insize = s.inp.start) :
+    ReadPost w s.inp.start (slowBody c s n).2.1 (slowBody c s n).2.2 := by
+  have hpos : pos s = s.inp.start := by unfold pos; rw [hbo]; simp
+  have hself : ReadPost w s.inp.start s .eof :=
+    ⟨⟨spec, h⟩, hp, by simp [bytesOf, hpos], by intro i hi; simp [bytesOf] at hi, by simp, ho⟩
+  unfold isOpen at ho
+  have ho1 : ¬ (s.inresetcode ≠ -1) := fun x => ho (Or.inr x)
+  have ho2 : ¬ (s.inclosed.isSet = true) := fun x => ho (Or.inl x)
+  unfold slowBody
+  rw [if_neg ho1, if_neg ho2]
+  by_cases hz : s.insize = s.inp.start
+  · rw [if_pos hz]; exact hself
+  · rw [if_neg hz]
+    have hmem : Mem s.inset s.inp.start := by
+      rcases hcr with h1 | h1
+      · exact (NetVerif.Proofs.C24.contains_iff _ h.wf _).1 h1
+      · exact absurd h1 hz
+    split
+    · rename_i hs; rw [hs] at hmem; simp at hmem
+    · rename_i r0 rest hs
+      have hwf : WF (r0 :: rest) := by rw [← hs]; exact h.wf
+      have hhead := head_covers r0 rest s.inp.start hwf h.st0
+        (fun x h1 h2 => by
+          rw [← hs]
+          by_cases hx : x = s.inp.start
+          · rw [hx]; exact hmem
+          · exact hp x h1 (by rw [hb]; simp; omega))
+        (fun x hx => (h.cov x (by rw [hs]; exact hx)).1)
+      have hr0 : ∀ x, 0 ≤ x → x < r0.e → Mem s.inset x := fun x h1 h2 => by
+        rw [hs]; exact ⟨r0, by simp, by omega, h2⟩
+      rw [if_neg (by omega)]
+      -- the copy
+      simp only []
+      generalize hn' : (if r0.e - s.inp.start < (n : Int) then r0.e - s.inp.start else (n : Int)) = n'
+      have hn'0 : 0 ≤ n' ∧ s.inp.start + n' ≤ r0.e := by rw [← hn']; split <;> omega
+      have hk : (n'.toNat : Int) = n' := Int.toNat_of_nonneg hn'0.1
+      obtain ⟨bytes, e1, e2, e3⟩ := copy_bytes w s spec h n'.toNat
+        (fun x h1 h2 => hr0 x (by have := h.st0; omega) (by omega))
+      rw [e1]
+      simp only []
+      -- the state after the discard
+      have hd := discard_RI w s spec h (s.inp.start + n') (by omega)
+      have hs2 : RI w { s with inp := Pipe.discardBefore s.inp (s.inp.start + n') } (specDiscard spec (s.inp.start + n')) :=
+        RI_fields hd rfl rfl (by simp [hb]) (by simp [hbo])
+      have hbytes : ∀ i : Nat, i < bytes.length → bytes[i]? = wAt w (s.inp.start + i) := fun i hi => e3 i (by omega)
+      by_cases heof : s.inp.start + n' = s.insize
+      · rw [if_pos heof]
+        refine ⟨⟨_, hs2⟩, ?_, ?_, hbytes, by simp, ?_⟩
+        · intro x h1 h2
+          have h2' : x < s.inp.start + n' + (s.inbuf.length : Int) := h2
+          rw [hb] at h2'; simp at h2'
+          exact hr0 x h1 (by omega)
+        · show s.inp.start + n' + (s.inbufoff : Int) = s.inp.start + bytes.length
+          rw [hbo, e2]; simp; omega
+        · exact fun x => ho x
+      · rw [if_neg heof]
+        have hfin : ∀ (t : Stream) (spec' : Spec) (ex : Int), RI w t spec' → Pre t →
+            t.inp.start = s.inp.start + n' → t.inbufoff = 0 → t.inclosed = s.inclosed → t.inresetcode = s.inresetcode →
+            ReadPost w s.inp.start
+              (if t.insize = -1 ∨ t.insize > t.inwin then
+                 (if shouldUpdateFlowControl t.inmaxbuf (t.inp.start + t.inbuf.length + t.inmaxbuf - t.inwin) = true
+                  then { t with insendmax := .unsent } else t) else t) (.data bytes false) := by
+          intro t spec' ex hri hpre hst hoff hc1 hc2
+          have base : ∀ u : Stream, u.inp = t.inp → u.inset = t.inset → u.inbuf = t.inbuf → u.inbufoff = t.inbufoff →
+              u.inclosed = t.inclosed → u.inresetcode = t.inresetcode → ReadPost w s.inp.start u (.data bytes false) := by
+            intro u a1 a2 a3 a4 a5 a6
+            refine ⟨⟨spec', RI_fields hri a1 a2 a3 a4⟩, ?_, ?_, hbytes, by simp, ?_⟩
+            · intro x h1 h2; rw [a2]; rw [a1, a3] at h2; exact hpre x h1 h2
+            · unfold pos; rw [a1, a4, hst, hoff]; simp [bytesOf, e2]; omega
+            · unfold isOpen; rw [a5, a6, hc1, hc2]; exact fun x => ho x
+          split
+          · split
+            · exact base _ rfl rfl rfl rfl rfl rfl
+            · exact base _ rfl rfl rfl rfl rfl rfl
+          · exact base _ rfl rfl rfl rfl rfl rfl
+        by_cases hmore : r0.s ≤ s.inp.start + n' ∧ r0.e > s.inp.start + n'
+        · -- park the rest of the chunk in inbuf
+          have hpk := peek_bytes w _ _ hs2 (r0.e - (s.inp.start + n')) (by omega)
+            (fun x h1 h2 => by
+              have h1' : s.inp.start + n' ≤ x := h1
+              have h2' : x < s.inp.start + n' + (r0.e - (s.inp.start + n')) := h2
+              exact hr0 x (by have := h.st0; omega) (by omega))
+          obtain ⟨pb, p1, p2, p3⟩ := hpk
+          have hcond : r0.s ≤ (Pipe.discardBefore s.inp (s.inp.start + n')).start ∧
+              r0.e > (Pipe.discardBefore s.inp (s.inp.start + n')).start := hmore
+          simp only []
+          rw [if_pos hcond]
+          have p1' : Pipe.peek (Pipe.discardBefore s.inp (s.inp.start + n'))
+              (r0.e - (Pipe.discardBefore s.inp (s.inp.start + n')).start) = some pb := p1
+          rw [p1']
+          simp only []
+          refine hfin { s with inp := Pipe.discardBefore s.inp (s.inp.start + n'), inbuf := pb } (specDiscard spec (s.inp.start + n')) pb.length ?_ ?_ rfl hbo rfl rfl
+          · refine ⟨hs2.inv, hs2.rel, hs2.wf, hs2.cov, hs2.dat, hs2.st0, ?_, ?_, by simp [hbo]⟩
+            · intro i hi; exact p3 i hi
+            · intro x h1 h2
+              have h1' : s.inp.start + n' ≤ x := h1
+              have h2' : x < s.inp.start + n' + (pb.length : Int) := h2
+              exact hr0 x (by have := h.st0; omega) (by omega)
+          · intro x h1 h2
+            have h2' : x < s.inp.start + n' + (pb.length : Int) := h2
+            exact hr0 x h1 (by omega)
+        · have hcond : ¬ (r0.s ≤ (Pipe.discardBefore s.inp (s.inp.start + n')).start ∧
+              r0.e > (Pipe.discardBefore s.inp (s.inp.start + n')).start) := hmore
+          simp only []
+          rw [if_neg hcond]
+          simp only []
+          refine hfin { s with inp := Pipe.discardBefore s.inp (s.inp.start + n') } _ 0 hs2 ?_ rfl hbo rfl rfl
+          intro x h1 h2
+          have h2' : x < s.inp.start + n' + (s.inbuf.length : Int) := h2
+          rw [hb] at h2'; simp at h2'
+          exact hr0 x h1 (by omega)
+
+
+/-- **`Read`, every path**: on an open stream whose state satisfies the byte-level invariant, `Read(n)`
+returns exactly the sender's bytes `w[pos, pos+k)` (k = number of bytes returned, possibly 0), advances
+the position by k, keeps the invariant, and no pipe primitive panics. -/
+theorem read_post (w : List Nat) (c : Conn) (s : Stream) (spec : Spec) (n : Nat) (h : RI w s spec) (hp : Pre s)
+    (ho : isOpen s) :
+    ReadPost w (pos s) (QuicStream.read c s n).2.1 (QuicStream.read c s n).2.2 := by
+  have hnone : ∀ res : ReadRes, bytesOf res = [] → res ≠ .panic → ReadPost w (pos s) s res := fun res h1 h2 =>
+    ⟨⟨spec, h⟩, hp, by rw [h1]; simp, by intro i hi; rw [h1] at hi; simp at hi, h2, ho⟩
+  cases hw : s.writeOnly
+  case true =>
+    have hr : QuicStream.read c s n = (c, s, .errWriteOnly) := by unfold QuicStream.read; simp [hw]
+    rw [hr]; exact hnone _ rfl (by simp)
+  by_cases hf : s.inbuf.length > s.inbufoff
+  · have hfast := read_fast w c s spec n h hw hf
+    simp only [] at hfast
+    have hr : QuicStream.read c s n = (c, { s with inbufoff := s.inbufoff + min n (s.inbuf.length - s.inbufoff) },
+        .data ((s.inbuf.drop s.inbufoff).take (min n (s.inbuf.length - s.inbufoff))) false) := by
+      unfold QuicStream.read; simp [hw, hf]
+    rw [hr] at hfast ⊢
+    exact ⟨⟨spec, hfast.1⟩, hp, hfast.2.1, hfast.2.2.2.1, hfast.2.2.2.2, ho⟩
+  · rw [read_eq_slow c s n hw hf]
+    cases hcan : s.canRead
+    · simp only [Bool.not_false, if_true]
+      exact hnone _ rfl (by simp)
+    · simp only [Bool.not_true, Bool.false_eq_true, if_false]
+      obtain ⟨spec1, h1, b1, b2, b3, b4, b5, b6, b7, b8, _⟩ := prep_RI w s spec h hp hf
+      have hlen : (s.inbuf.length : Int) = s.inbufoff := by have := h.off; omega
+      have ho' : isOpen (prep s) := by unfold isOpen; rw [b7, b8]; exact ho
+      have hcr : Rangeset.contains (prep s).inset (prep s).inp.start = true ∨ (prep s).insize = (prep s).inp.start := by
+        rw [b5, b6, b3]
+        unfold Stream.canRead at hcan
+        unfold isOpen at ho
+        simp only [Bool.or_eq_true, decide_eq_true_eq] at hcan
+        unfold pos
+        rw [← hlen]
+        rcases hcan with ((h1 | h1) | h1) | h1
+        · exact Or.inl h1
+        · exact Or.inr h1
+        · exact absurd (Or.inr h1) ho
+        · exact absurd (Or.inl h1) ho
+      have := slowBody_post w c (prep s) spec1 n h1 b1 b2 b4 ho' hcr
+      rw [b3] at this
+      exact this
+
+
+/-- one delivered frame: invariant, received-prefix fact and read position are kept -/
+theorem feed_post (w : List Nat) (c : Conn) (s : Stream) (spec : Spec) (f : Int × List Nat × Bool)
+    (h : RI w s spec) (hp : Pre s) (ho : isOpen s) (hf : FrameOf w f.1 f.2.1) :
+    (∃ spec', RI w (feed (c, s) f).2 spec') ∧ Pre (feed (c, s) f).2 ∧ isOpen (feed (c, s) f).2 ∧
+      pos (feed (c, s) f).2 = pos s := by
+  by_cases h0 : (handleData c s f.1 f.2.1 f.2.2).2.2 = 0
+  · have hfeed : feed (c, s) f = ((handleData c s f.1 f.2.1 f.2.2).1, (handleData c s f.1 f.2.1 f.2.2).2.1) := by
+      unfold feed; simp [h0]
+    rw [hfeed]
+    obtain ⟨spec1, h1, hs1, _⟩ := handleData_RI w c s spec f.1 f.2.1 f.2.2 h hf h0 ho
+    have hsh := handleData_shape c s f.1 f.2.1 f.2.2 h0 ho
+    simp only [] at hsh
+    obtain ⟨_, e2, e3, e4, e5, e6, _, _⟩ := hsh
+    have hlen : (0 : Int) ≤ f.2.1.length := Int.natCast_nonneg _
+    have htr := trimOff_facts s f.1 (f.1 + f.2.1.length) (by omega)
+    refine ⟨⟨spec1, h1⟩, ?_, by unfold isOpen; rw [e5, e6]; exact ho, by unfold pos; rw [hs1, e4]⟩
+    intro x hx hx2
+    show Mem (handleData c s f.1 f.2.1 f.2.2).2.1.inset x
+    rw [e2, mem_add _ _ _ h.wf htr.2.1]
+    left
+    have hx2' : x < (handleData c s f.1 f.2.1 f.2.2).2.1.inp.start + ((handleData c s f.1 f.2.1 f.2.2).2.1.inbuf.length : Int) := hx2
+    rw [hs1, e3] at hx2'
+    exact hp x hx hx2'
+  · have hfeed : feed (c, s) f = (c, s) := by unfold feed; simp [h0]
+    rw [hfeed]; exact ⟨⟨spec, h⟩, hp, ho, rfl⟩
+
 end NetVerif.Proofs.Lemmas.QuicRecv
